@@ -606,7 +606,55 @@ theorem C16_md_after_count_change (ntd : List Nat) (cached : Dict) (e : Ends) (c
     ∃ d, mdToNumpy false ntd cached e conv = .ok d ∧ ∀ k a, lastVal conv k = some a → dictGet d k = some a :=
   C16_md_converted_holds_current ntd cached e conv (C16_md_count_change_reconverts cached e p1 hc h0 hn)
 
+/-! ## 7. `DataLoader.to_numpy(data)`: every entry of a dictionary gets its own conversion, wherever it stands -/
+
+/-- If no entry raises anything but `ValueError`, the loop is the entrywise map: every entry is what ITS OWN `to_numpy()`
+makes of it, an entry that cannot be converted (`ValueError`) is left as it was - and ends nothing. -/
+theorem C16_loader_entrywise {ε : Type} (step : ε → EntryStep ε) (es : List ε) (h : ∀ e ∈ es, step e ≠ .raises) :
+    loaderToNumpy step es = some (es.map fun e => (step e).after e) := by
+  induction es with
+  | nil => rfl
+  | cons e es ih =>
+    have ih' := ih (fun x hx => h x (List.mem_cons_of_mem _ hx))
+    have he := h e (List.mem_cons_self ..)
+    simp only [loaderToNumpy, List.map_cons, ih']
+    cases hs : step e with
+    | converted e' => simp [EntryStep.after]
+    | valueError => simp [EntryStep.after]
+    | raises => exact absurd hs he
+
+/-- The result for one entry does not depend on its position in the dictionary nor on what the other entries are (in
+particular not on unconvertible entries ahead of it). -/
+theorem C16_loader_position_independent {ε : Type} (step : ε → EntryStep ε) (pre post : List ε) (e : ε)
+    (h : ∀ x ∈ pre ++ e :: post, step x ≠ .raises) :
+    ∃ r, loaderToNumpy step (pre ++ e :: post) = some r ∧ r.length = pre.length + 1 + post.length ∧
+      r[pre.length]? = some ((step e).after e) := by
+  refine ⟨_, C16_loader_entrywise step _ h, by simp; omega, ?_⟩
+  simp
+
+/-- Every entry is attempted. -/
+theorem C16_loader_attempts_all {ε : Type} (step : ε → EntryStep ε) (es : List ε) (h : ∀ e ∈ es, step e ≠ .raises) :
+    loaderAttempted step es = es.length := by
+  induction es with
+  | nil => rfl
+  | cons e es ih =>
+    have ih' := ih (fun x hx => h x (List.mem_cons_of_mem _ hx))
+    have he := h e (List.mem_cons_self ..)
+    simp only [loaderAttempted, List.length_cons, ih']
+    cases hs : step e with
+    | converted e' => omega
+    | valueError => omega
+    | raises => exact absurd hs he
+
 /-! ## Non-vacuity (executable checks of the model, not theorems) -/
+
+-- an unconvertible entry first / in the middle / last: the convertible ones are converted all the same
+#guard
+  let step : Nat → EntryStep Nat := fun n => if n % 2 == 0 then .converted (n + 100) else if n == 7 then .raises else .valueError
+  loaderToNumpy step [1, 2, 4] == some [1, 102, 104] && loaderToNumpy step [2, 1, 4] == some [102, 1, 104]
+    && loaderToNumpy step [2, 4, 1] == some [102, 104, 1] && loaderToNumpy step [2, 7, 4] == none
+    && loaderAttempted step [1, 2, 4] == 3 && loaderAttempted step [2, 7, 4] == 2
+
 
 -- a transposed 3-vector field over two messages: A×N, column i = message i; NaN removal drops column 1 everywhere
 #guard
